@@ -78,9 +78,44 @@ func historyGenesis(W, C int64, nAcc int) chain.GenesisOpts {
 
 // replayHistory executes recorded bytes on a fresh app.
 func replayHistory(h *recHistory) ([]blockResult, *chain.Chain) {
+	return replayHistoryNoisy(h, false)
+}
+
+// queryPaths are gRPC query endpoints of the custom modules that take an empty (or all-default) request.
+var queryPaths = []string{
+	"/canine_chain.storage.Query/Params", "/canine_chain.storage.Query/AllFiles", "/canine_chain.storage.Query/AllProviders", "/canine_chain.storage.Query/ActiveProviders",
+	"/canine_chain.storage.Query/Gauges", "/canine_chain.storage.Query/StorageStats", "/canine_chain.storage.Query/NetworkSize", "/canine_chain.storage.Query/AllProofs",
+	"/canine_chain.storage.Query/AllAttestations", "/canine_chain.storage.Query/AllReports", "/canine_chain.storage.Query/AllStoragePaymentInfo", "/canine_chain.storage.Query/FreeSpace",
+	"/canine_chain.rns.Query/Params", "/canine_chain.rns.Query/AllNames", "/canine_chain.rns.Query/AllBids", "/canine_chain.rns.Query/AllForSale",
+	"/canine_chain.filetree.Query/Params", "/canine_chain.filetree.Query/AllFiles", "/canine_chain.filetree.Query/AllPubKeys",
+	"/canine_chain.notifications.Query/Params", "/canine_chain.notifications.Query/AllNotifications",
+	"/canine_chain.oracle.Query/Params", "/canine_chain.oracle.Query/AllFeeds",
+	"/canine_chain.jklmint.Query/Params", "/canine_chain.jklmint.Query/Inflation", "/canine_chain.jklmint.Query/MintedTokens",
+	"/cosmos.bank.v1beta1.Query/TotalSupply", "/cosmos.auth.v1beta1.Query/Params",
+}
+
+// replayHistoryNoisy replays the recorded blocks; a noisy replica additionally behaves like a node that serves RPC
+// while it executes: between BeginBlock and the transactions, and between transactions, it answers queries
+// against the last committed state and runs the mempool check on the transaction it is about to execute.  None of
+// that may influence what block execution returns or commits.
+func replayHistoryNoisy(h *recHistory, noisy bool) ([]blockResult, *chain.Chain) {
 	c := chain.New(historyGenesis(h.Window, h.Check, h.NumAccounts))
 	var out []blockResult
-	for _, b := range h.Blocks {
+	noise := func(i, j int, raw []byte) {
+		if !noisy {
+			return
+		}
+		for k := 0; k < 3; k++ {
+			c.Query(queryPaths[(i*7+(j+1)*3+k*11)%len(queryPaths)], nil)
+		}
+		if (j+1)%2 == 0 {
+			c.Query("/canine_chain.storage.Query/Params", nil)
+		}
+		if raw != nil && (i+j)%3 != 0 {
+			c.Check(raw)
+		}
+	}
+	for i, b := range h.Blocks {
 		var br blockResult
 		res, bp := c.Begin(time.Duration(b.DtNanos))
 		br.Height = c.Height
@@ -90,8 +125,10 @@ func replayHistory(h *recHistory) ([]blockResult, *chain.Chain) {
 			return out, c
 		}
 		br.Begin = flattenEvents(res.Events)
-		for _, t := range b.Txs {
+		noise(i, -1, nil)
+		for j, t := range b.Txs {
 			raw, _ := hex.DecodeString(t)
+			noise(i, j, raw)
 			r := c.Deliver(raw)
 			br.Txs = append(br.Txs, txResult{r.Code, r.Codespace, r.GasWanted, r.GasUsed, hex.EncodeToString(r.Data), flattenEvents(r.Events)})
 		}
